@@ -7,6 +7,8 @@ Author : Shunning Jiang
 Date   : Jan 26, 2020
 """
 
+from collections import defaultdict
+
 import py
 
 from pymtl3.datatypes import Bits, b1
@@ -171,6 +173,9 @@ class PrepareSimPass( BasePass ):
       # we now use @=.
       # - First pass creates whole bunch of signals
       signal_object_mapping = {}
+      # A signal can be referenced from more than one place ( s.ws = [ s.a,
+      # s.b ] next to s.a and s.b ): every place gets the same value object
+      other_locations = defaultdict(list)
 
       Q = [ (top, top) ]
       while Q:
@@ -178,6 +183,10 @@ class PrepareSimPass( BasePass ):
         if isinstance( current_obj, list ):
           for i, obj in enumerate( current_obj ):
             if isinstance( obj, Signal ):
+              if obj in signal_object_mapping:
+                current_obj[i] = signal_object_mapping[ obj ][-1]
+                other_locations[ obj ].append( (current_obj, i, True) )
+                continue
               try:
                 value = obj.default_value()
                 if obj._dsl.needs_double_buffer:
@@ -199,6 +208,10 @@ class PrepareSimPass( BasePass ):
             if i[0] == '_': continue
 
             if isinstance( obj, Signal ):
+              if obj in signal_object_mapping:
+                setattr( current_obj, i, signal_object_mapping[ obj ][-1] )
+                other_locations[ obj ].append( (current_obj, i, False) )
+                continue
               try:
                 value = obj.default_value()
                 if obj._dsl.needs_double_buffer:
@@ -250,12 +263,14 @@ class PrepareSimPass( BasePass ):
             current_obj, i, is_list, value = signal_object_mapping[ x ]
             signal_object_mapping[ x ] = (current_obj, i, is_list, residence_value)
 
-            if is_list:
-              current_obj[i] = residence_value
-            else:
-              setattr( current_obj, i, residence_value )
+            for (_obj, _i, _is_list) in [ (current_obj, i, is_list) ] + other_locations[ x ]:
+              if _is_list:
+                _obj[_i] = residence_value
+              else:
+                setattr( _obj, _i, residence_value )
 
       top._sim.signal_object_mapping = signal_object_mapping
+      top._sim.signal_other_locations = other_locations
       top._sim.locked_simulation = True
 
       # Add the function that checks if the Bits objects of
@@ -292,8 +307,9 @@ def check_top_level_inports():
 
       # We will reuse the same Bits object since they won't change anymore
       for obj, (current_obj, i, is_list, _) in top._sim.signal_object_mapping.items():
-        if is_list: current_obj[i] = obj
-        else:       setattr( current_obj, i, obj )
+        for (_obj, _i, _is_list) in [ (current_obj, i, is_list) ] + top._sim.signal_other_locations.get( obj, [] ):
+          if _is_list: _obj[_i] = obj
+          else:        setattr( _obj, _i, obj )
 
     top.lock_in_simulation = lock_in_simulation
     top.unlock_simulation  = unlock_simulation
